@@ -16,6 +16,10 @@ MUTATIONS = (          # top-level fields of the operation, in document order
     # (appended) a top-level field that fails while its value is COMPLETED (not in its resolver): contained like any field error, the later fields still run
     ("m1 { x }", "msc", "m3"),
     ("msc", "m2 { y sc }", "m3"),
+    # (appended) a LIST-typed top-level field that fails while a later item is completed (its type resolver raises ResolverError) after the sub-selection of an
+    # earlier item has been started: the field is answered (null + error) only once everything it started has finished
+    ("ml { id ... on Obj { x y } }", "m3"),
+    ("m1 { x }", "ml { ... on Obj { y } }", "m3"),
 )
 # how the same top-level fields are spelled in the document: (template, operation name); %A = all fields, %H = the first, %T = the rest
 SHAPES = (
@@ -79,8 +83,8 @@ def _serial(sr: bool, di: bool, q: int, sh: int, k1: int, k2: int, kx: int, ky: 
         if base[0] == "ok":
             # (1) resolver invocations happen in the serial document order of the blocking baseline, whatever completes first
             # (2) a failing top-level field does not stop the later ones (same log as the baseline, which runs them)
-            top = [e for e in glog if e[1] in ("m1", "m2", "m3", "msc")]
-            ok = ok and [e for e in blog if e[1] in ("m1", "m2", "m3", "msc")] == top
+            top = [e for e in glog if e[1] in TOP]
+            ok = ok and [e for e in blog if e[1] in TOP] == top
             # sub-fields of top-level field i all run before top-level field i+1 is invoked
             ok = ok and serial_ok(glog, blog)
             # response keys in document order: compared through the ordered JSON text in agree()
@@ -90,11 +94,14 @@ def _serial(sr: bool, di: bool, q: int, sh: int, k1: int, k2: int, kx: int, ky: 
     return result(ok, steps >= 2 or C == 0)
 
 
+TOP = ("m1", "m2", "m3", "msc", "ml")
+
+
 def owners(log):
     """run-length compressed sequence of the top-level field each resolver invocation belongs to"""
     out = []
     for (_, key, rid, _p) in log:
-        o = key if key in ("m1", "m2", "m3", "msc") else rid
+        o = key if key in TOP else ("ml" if rid in ("ml0", "ml2") else rid)
         if not out or out[-1] != o:
             out.append(o)
     return out
